@@ -2,6 +2,7 @@
 import re
 
 from engine.rulelib import *
+from engine.core import AnchorMissing
 from engine.run import site_desc
 
 EXPLANATION = (
@@ -25,14 +26,16 @@ def r1(ctx):
     lit = one(b.aggregates(r'system::NtpSnapshot$'), 'NtpSnapshot literal')
     rv = lit.data['rv']
     f = {n: S(b.operand_term(o)) for n, o in zip(rv['fields'], rv['ops'])}
-    ok = re.match(r'^stratum\{local_stratum \| num::saturating_add\(\{\(\(Peekable::peek\(.*\) as Some\)\.0 as External\)\.stratum \| '
+    ok = re.match(r'^\w+\{local_stratum \| num::saturating_add\(\{\(\(Peekable::peek\(.*\) as Some\)\.0 as External\)\.stratum \| '
                   r'\(\(Peekable::peek\(.*\) as Some\)\.0 as Ntp\)\.0\.stratum\}, 1\)\}$', f['stratum']) is not None
     ctx.check('from_used_sources|stratum', ok, 'advertised stratum is `%s`' % f['stratum'][:200], lit.where(), sample=f['stratum'][:260])
-    ok = re.match(r'^reference_id\{NONE=.* \| \{\(\(Peekable::peek\(.*\) as Some\)\.0 as External\)\.source_id \| \(\(Peekable::peek\(.*\) as Some\)\.0 as Ntp\)\.0\.source_id\}\}$',
+    ok = re.match(r'^\w+\{NONE=.* \| \{\(\(Peekable::peek\(.*\) as Some\)\.0 as External\)\.source_id \| \(\(Peekable::peek\(.*\) as Some\)\.0 as Ntp\)\.0\.source_id\}\}$',
                   f['reference_id']) is not None
     ctx.check('from_used_sources|reference_id', ok, 'advertised reference id is `%s`' % f['reference_id'][:200], lit.where(), sample=f['reference_id'][:260])
     for nm in ('stratum', 'reference_id'):
-        li = one([i for i, l in enumerate(b.locals) if l.get('name') == nm and l.get('user') and len(b.defs().get(i, [])) == 2], 'local ' + nm)
+        li = root_local(b, rv['ops'][rv['fields'].index(nm)])
+        if li is None or len(b.defs().get(li, [])) != 2:
+            raise AnchorMissing('the mutable local handed over as NtpSnapshot.%s' % nm)
         for d in b.defs()[li]:
             v = S(b._def_term(d, ()))
             if v in ('local_stratum',) or v.startswith('NONE'):
